@@ -286,6 +286,7 @@ fn find_fault(st: &mut SysState, path: usize, op: Op, index: u64) -> Option<Faul
             let a = r.action.clone();
             st.fault_fired.push((name.clone(), format!("{:?}@{:?}#{}", a, op, index)));
             let kind: &'static str = match &a {
+                FaultAction::Errno(_) if op == Op::Read => "fault:ReadErrno",
                 FaultAction::Errno(_) => "fault:WriteErrno",
                 FaultAction::Short(_) => "fault:ShortWrite",
                 FaultAction::PartialThenErrno(..) => "fault:PartialWriteThenErrno",
